@@ -169,14 +169,16 @@ CHECKS = {
         note=NOTE_COMMON + ' Unpacking, os.walk order and temporary-directory removal are runtime behaviour, explored only.'),
     'C10': dict(
         category='proof',
-        text='Partial (stated as C10_load_render_partial). Proved in Coq for ALL inputs: polib_unescape returns exactly the byte string for every spelling of it in the C escape '
-             'family (literal, \\n-style, octal, hex of the encoded bytes) without warning; the 14-state PO state machine on the token list of any rendering of a catalog rebuilds the '
-             'catalog (strings, flags in order with duplicates, obsolete, previous-msgid, references, extracted comments on the right entry; blank and #~| lines anywhere; nplurals <= 10); '
-             'per-line-kind lexer round trips. Not proved: the assembly lex_lines(render c) = tokens(c) (the named hypothesis), Codecs.open / detect_encoding composition (modelled, tied by '
-             'correspondence). Tied by load(render(c)) == c over 42 ASCII-compatible codecs with an independent renderer.',
+        text='Proved in Coq for ALL inputs: polib_unescape returns exactly the byte string for every spelling of it in the C escape family (literal, \\n-style, octal, hex of the encoded '
+             'bytes) in every ASCII-compatible charset without warning, never crashes on any string and warns exactly on the D14 pattern; for every catalog and every spelling of the printer family '
+             '(per-line padding, blank lines anywhere, continuation splitting, obsolete and previous-msgid prefixes) the loader model - detect_encoding, Codecs.open (LF-only splitting, comment '
+             'normalisation), the line lexer and the 14-state PO state machine - yields exactly the catalog: strings, flags in order with duplicates, obsolete marker, previous-msgid, references '
+             'and extracted comments on the right entry, for nplurals <= 10 (D9) and outside dropped #~| annotations (D22) (C10_load_render, C10_open_load_render, C10_load_po_render; the codecs '
+             'are oracles whose answers the harness supplies from the live codecs). The loader model never crashes. Tied by correspondence and by the model-free load(render(c)) == c oracle over '
+             '42 ASCII-compatible charsets with an independent renderer, on single files and on multi-file sequences in one process.',
         design_ref='DESIGN.md 5 / C10; notes/C10.md',
-        technique='Coq proof (unescape round trip, state-machine round trip, per-line lexer lemmas) + extracted-model correspondence + render/load oracle',
-        note=NOTE_COMMON + ' polib (third party) is modelled, not verified. Known findings D9, D14, D22, D23.'),
+        technique='Coq proof (unescape round trip and totality, lexer round trips per line kind and their assembly, state-machine round trip, Codecs.open / detect_encoding composition) + extracted-model correspondence with oracle-answer protocol + render/load oracle',
+        note=NOTE_COMMON + ' polib (third party) is modelled, not verified; bytes.decode is an oracle; separators after keywords are one choice per file in the proved family. Known findings D9, D14, D22, D23.'),
     'C12': dict(
         category='proof',
         text='Coq theorems relating two models, the scanner model of strformat.python.FormatString and a model of CPython 3.12 unicode_format_arg_parse/format: if the parser accepts '
